@@ -67,5 +67,20 @@ def main():
                                max_runs=args.max_runs)
 
 
+def _main_with_scratch():
+    """every temporary file of the run lives in one scratch directory that is removed on the way out"""
+    import shutil
+    import tempfile
+    own = None
+    if not os.environ.get("VERIF_SCRATCH"):
+        own = tempfile.mkdtemp(prefix="verif_scratch_", dir=os.environ.get("TMPDIR", "/tmp"))
+        os.environ["VERIF_SCRATCH"] = own
+    try:
+        return main()
+    finally:
+        if own:
+            shutil.rmtree(own, ignore_errors=True)
+
+
 if __name__ == "__main__":
-    sys.exit(main())
+    sys.exit(_main_with_scratch())
